@@ -20,4 +20,14 @@ CHECKS = {
     design_ref='DESIGN.md section 2, C18',
     note='Trusted base: oracles/pglex.py (reference PostgreSQL lexer, ~250 lines, self-tested on the manual examples; standard_conforming_strings=on, UTF-8) and the FFI bridge to the repository lexer. PostgreSQL keyword classes are the manual ones restricted to words in the repository table.',
     technique='property-based testing: exhaustive short strings over an adversarial alphabet + Hypothesis text, round-trip through the real EdgeQL lexer and a reference PostgreSQL lexer'),
+ 'C15': dict(
+    text='The real connection pool (edb/server/connpool/pool.py) runs under a harness-owned asyncio loop with a virtual clock; connect/disconnect callbacks park futures so the generated schedule decides every completion order. Hypothesis generates schedules (<=80 ops: acquire/release/discard on 1-7 databases, connect ok/fail/3D000, disconnect ok/fail, clock advances that fire ticks, GC and log timers, prune of one/all databases; capacity 1-5) and all schedules of length 4 (thorough: 5) over 12 ops are enumerated for capacity 1 and 2. After every step the invariants of the property are checked against the true backend state kept by the callbacks. Schedule-owning stateful PBT is the right level: the pool is single-threaded asyncio code whose only nondeterminism is event order.',
+    design_ref='DESIGN.md section 2, C15',
+    note='Explores orders of completion events and timers under FIFO callback scheduling, not OS-thread interleavings (the code has none). Exceptions that reach the loop handler are counted as anomalies, not judged (not a clause of the property).',
+    technique='stateful property-based testing (Hypothesis-generated operation/fault schedules + exhaustive short schedules) with history invariants over a harness-owned event loop'),
+ 'C16': dict(
+    text='Same simulation as C15; every generated prefix (no disconnect failures, no pruning) is followed by a fair closing phase (holders release in rotation, pending connects succeed or, for a drawn database, always fail, disconnects complete, the clock jumps from timer to timer). A request still pending after K = 50 x (requests+capacity+databases) rounds is a violation: bounded liveness as a work bound, never a wall-clock timeout. Three genuine starvation classes found on the unchanged tree are listed in known_findings.json and reported as KNOWN-FINDING; starvations are classified by root-cause features so that other causes are still reported.',
+    design_ref='DESIGN.md section 2, C16',
+    note='Liveness under one family of fair schedulers and a finite bound; the classification of starvation causes (used only to tell known findings from new ones) reads pool internals.',
+    technique='stateful property-based testing with a fair closing schedule and a bounded-work liveness oracle'),
 }
